@@ -33,6 +33,9 @@ def universe(w):
               w.ion(w.get(w.table, "D"), 1), w.ion(w.isotope("H", 1), 1), w.ion(w.isotope("C", 13), 4)]
     # mass numbers of different digit counts (ordered by number, not as text), charges of two digits
     atoms += [w.isotope("Mo", 98), w.isotope("Mo", 100), w.isotope("Be", 9), w.isotope("Be", 10)]
+    # symbols that come just before symbols listed above in the alphabet, met for the first time after D and T were (an
+    # order kept as positions in a list that grows when D or T is first seen makes neighbours tie)
+    atoms += [E("F"), E("Cf"), E("Cn"), E("Hg")]
     return atoms
 
 
